@@ -76,6 +76,18 @@ Proof.
   apply (Hpre (k', v')). eapply nth_error_In; eauto.
 Qed.
 
+Lemma first_ge_split {V} c key (pre : list (bytes * V)) kv post :
+  (forall x, In x pre -> cmp c (fst x) key = Lt) -> cmp c (fst kv) key <> Lt ->
+  first_ge c key (pre ++ kv :: post) 0 = Some (length pre).
+Proof.
+  intros Hpre Hkv. destruct kv as [k v].
+  assert (E : nth_error (pre ++ (k, v) :: post) (length pre) = Some (k, v)).
+  { rewrite nth_error_app2 by lia. rewrite Nat.sub_diag. reflexivity. }
+  apply (first_ge_some_intro c _ key 0 (length pre) k v E Hkv).
+  intros j' k' v' Hj Hn. rewrite nth_error_app1 in Hn by exact Hj.
+  apply (Hpre (k', v')). eapply nth_error_In; eauto.
+Qed.
+
 Lemma none_ge_fn {V} c key (l : list (bytes * V)) : none_ge c key l -> first_ge c key l 0 = None.
 Proof.
   intros H. apply first_ge_none_intro. intros j k' v' Hn. apply (H (k', v')). eapply nth_error_In; eauto.
